@@ -21,7 +21,7 @@ ASSUMPTIONS = ['batch vs stream: max-abs difference <= 1e-12 (a batch constructo
                'the streaming instance is created without data but with the same effective configuration and started from the first row of the batch run',
                'Madgwick\'s default gain depends on whether magnetometer data was given to the constructor (documented default); both runs get the same explicit gain',
                'bounded: histories of length 5 over 3 sample symbols, 2 live instances x 3 updates + 1 construction event']
-REQUIRED_CLASSES = ['record-dtypes', 'dt-per-call', 'stream:carriers', 'batch=stream', 'repeat', 'schedule', 'shared-weights', 'param-pair']
+REQUIRED_CLASSES = ['refused-calls', 'record-dtypes', 'dt-per-call', 'stream:carriers', 'batch=stream', 'repeat', 'schedule', 'shared-weights', 'param-pair']
 
 S = [  # (gyr, acc, mag) sample symbols
     (np.array([0.01, -0.02, 0.03]), np.array([0.1, 0.2, 9.7]), np.array([22.0, 1.0, 40.0])),
@@ -383,6 +383,67 @@ def job_dt_per_call(ctx, key):
     ctx.sample({'filter': key, 'dt_per_call': 0.02})
 
 
+def job_refused_calls(ctx, key):
+    """Exception safety of the streaming objects: a run in which some update calls are REFUSED (they raise: null or NaN sample, wrong shape,
+    wrong length, non-numeric) in between the valid calls gives, on the valid calls, bit for bit what the run without those calls gives."""
+    r = rr.by_key(key)
+    if r.step_fn is None:
+        return
+    g, a, m = long_history(1, 18)
+    # (not in the menu, because the unchanged tree is not exception-safe there -- DESIGN 7.7: a gyroscope sample of length 2 and a NaN magnetometer
+    # sample given to Mahony, an accelerometer sample of shape (1,3) given to EKF)
+    spoils = [('zero mag', lambda gg, aa, mm: (gg, aa, np.zeros(3))), ('zero acc', lambda gg, aa, mm: (gg, np.zeros(3), mm)), ('NaN acc', lambda gg, aa, mm: (gg, np.full(3, np.nan), mm)),
+              ('mag of length 2', lambda gg, aa, mm: (gg, aa, mm[:2].copy())),
+              ('acc of length 2', lambda gg, aa, mm: (gg, aa[:2].copy(), mm)), ('acc as a string', lambda gg, aa, mm: (gg, 'abc', mm)),
+              ('NaN gyr', lambda gg, aa, mm: (np.full(3, np.nan), aa, mm)),
+              ('NaN mag', lambda gg, aa, mm: (gg, aa, np.full(3, np.nan))), ('acc of shape (1,3)', lambda gg, aa, mm: (gg, aa[None].copy(), mm)), ('acc of shape (2,3)', lambda gg, aa, mm: (gg, np.array([aa, aa]), mm)),
+              ('gyr of length 2', lambda gg, aa, mm: (gg[:2].copy(), aa, mm))]
+    not_safe_on_unchanged_tree = {'Mahony': ('gyr of length 2', 'NaN mag'), 'EKF': ('acc of shape (1,3)', 'acc of shape (2,3)')}
+    spoils = [sp_ for sp_ in spoils if sp_[0] not in not_safe_on_unchanged_tree.get(r.cls_name, ())]
+    for ci, cfg in enumerate(r.cfgs):
+        def run(spoil):
+            _seed(r)
+            inst = r.fresh(cfg)
+            q = rq.qunit([0.9, 0.1, -0.2, 0.3]); rows = []
+            refused = answered = 0
+            for t in range(1, len(g)):
+                if spoil is not None and t in (3, 7, 8, 15):
+                    gs, as_, ms = spoil(g[t].copy(), a[t].copy(), m[t].copy())
+                    try:
+                        r.step_fn(inst, np.array(q, float), gs, as_, ms if r.has_mag else None)
+                        answered += 1
+                    except Exception:
+                        refused += 1
+                q = np.array(r.step_fn(inst, np.array(q, float), g[t].copy(), a[t].copy(), m[t].copy() if r.has_mag else None), float)
+                rows.append(q)
+            return np.array(rows), refused, answered
+        try:
+            base, _, _ = run(None)
+        except Exception as ex:
+            ctx.evals += 1
+            ctx.fail(f'{key}: fault-free streaming run raises', f'filter={key} cfg#{ci}', f'{type(ex).__name__}: {ex}'[:160], 'completes')
+            continue
+        for sn, sp in spoils:
+            if not r.has_mag and 'mag' in sn:
+                continue
+            kk = f'filter={key} cfg#{ci} refused calls: {sn}'
+            ctx.evals += 1
+            try:
+                out, refused, answered = run(sp)
+            except Exception as ex:
+                ctx.fail(f'{key}: a valid update raises after a refused one', kk, f'{type(ex).__name__}: {ex}'[:160], 'the valid samples are processed')
+                continue
+            if answered or not refused:
+                ctx.outcome(('spoiled-sample-answered', key, sn))       # the sample was consumed (e.g. correction skipped): not comparable
+                continue
+            ctx.expect(out.tobytes() == base.tobytes(), f'{key}: refused update calls leave the filter exactly as it was (valid calls answer as in the run without them)', kk,
+                       float(np.abs(out - base).max()), 0.0, 0.0)
+            ctx.cls('refused-calls')
+            ctx.seen((key, ci, 'refused', sn))
+            ctx.traces += 1
+    ctx.sample({'filter': key, 'refused_call_kinds': [s_[0] for s_ in spoils]})
+
+
 def job_param_pairs(ctx, key):
     """Two instances of one class that differ in ONE constructor parameter, in both creation orders, against solo runs made in
     pristine child processes (state cached at class or module level and keyed incompletely shows here)."""
@@ -451,6 +512,7 @@ def run(ctx):
     jobs.append(('job_shared_weights', ()))
     jobs += [('job_param_pairs', (r.key,)) for r in regs]
     jobs += [('job_dt_per_call', (r.key,)) for r in regs]
+    jobs += [('job_refused_calls', (r.key,)) for r in regs]
     core.run_jobs(ctx, __name__, jobs)
     ctx.notes['interleaved_filter_entries'] = keys
     ctx.notes['schedules_per_pair'] = 140
